@@ -79,7 +79,7 @@ _resolved = {}
 
 
 def resolve(name, version=None):
-    """fully dereferenced copy of schema `name` (Draft 4: siblings of $ref are ignored);
+    """fully dereferenced copy of schema `name` (Draft 4: siblings of $ref are ignored, except a version annotation, see _deref);
     with a version, pruned by prune() *after* dereferencing"""
     key = (name, version)
     if key not in _resolved:
@@ -96,7 +96,13 @@ def _deref(s, stack):
             ref = s["$ref"]
             if ref in stack:
                 raise ValueError("cyclic $ref " + ref)
-            return _deref(copy.deepcopy(raw(ref)), stack + (ref,))
+            out = _deref(copy.deepcopy(raw(ref)), stack + (ref,))
+            if isinstance(s.get("metadata"), dict) and isinstance(out, dict):
+                # Draft 4 ignores the siblings of $ref for VALIDATION; a minVersion/maxVersion annotation written next to a $ref is
+                # still an annotation of that keyword / alternative in the sense of C09 and is carried over
+                out = dict(out)
+                out["metadata"] = dict(out.get("metadata") or {}, **s["metadata"])
+            return out
         return {k: _deref(v, stack) for k, v in s.items()}
     if isinstance(s, list):
         return [_deref(v, stack) for v in s]
